@@ -82,8 +82,14 @@ func boolp(b bool) *bool { return &b }
 
 // NewWriters builds the world. Every writer is in the write list.
 func NewWriters(kind string, n int, ops []WOp) (*Writers, error) {
+	return NewWritersOpt(kind, n, ops, false)
+}
+
+// NewWritersOpt: with replicate, every replica subscribes to the database topic and messages stay in
+// flight until the explorer delivers them.
+func NewWritersOpt(kind string, n int, ops []WOp, replicate bool) (*Writers, error) {
 	w := &Writers{Kind: kind, N: n, Net: sim.NewNet(), Ops: ops, Scratch: map[string]interface{}{}}
-	w.Net.PubSub.AutoDeliver = true
+	w.Net.PubSub.AutoDeliver = !replicate
 	var ids []string
 	for i := 0; i < n; i++ {
 		p := w.Net.AddPeer(fmt.Sprintf("W%d", i))
@@ -99,13 +105,13 @@ func NewWriters(kind string, n int, ops []WOp) (*Writers, error) {
 	ac := accesscontroller.NewEmptyManifestParams()
 	ac.SetAccess("write", ids)
 	st := kind
-	s0, err := w.Inst[0].DB.Create(bg, "db", st, &orbitdb.CreateDBOptions{AccessController: ac, Replicate: boolp(false)})
+	s0, err := w.Inst[0].DB.Create(bg, "db", st, &orbitdb.CreateDBOptions{AccessController: ac, Replicate: boolp(replicate)})
 	if err != nil {
 		return nil, fmt.Errorf("create: %w", err)
 	}
 	w.Stores = append(w.Stores, s0)
 	for i := 1; i < n; i++ {
-		s, err := w.Inst[i].DB.Open(bg, s0.Address().String(), &orbitdb.CreateDBOptions{Replicate: boolp(false)})
+		s, err := w.Inst[i].DB.Open(bg, s0.Address().String(), &orbitdb.CreateDBOptions{Replicate: boolp(replicate)})
 		if err != nil {
 			return nil, fmt.Errorf("open: %w", err)
 		}
@@ -113,7 +119,7 @@ func NewWriters(kind string, n int, ops []WOp) (*Writers, error) {
 	}
 	w.Addr = s0.Address().String()
 	for range w.Stores {
-		w.replicate = append(w.replicate, false)
+		w.replicate = append(w.replicate, replicate)
 	}
 	if err := sim.Quiesce(); err != nil {
 		return nil, err
